@@ -2,6 +2,7 @@ package main
 
 import (
 	"fmt"
+	"sort"
 	"go/constant"
 	"go/token"
 	"go/types"
@@ -455,7 +456,7 @@ func (g *Gen) callStatic(st *BState, in ssa.Instruction, callee *ssa.Function, a
 		argVals[pname] = ev
 	}
 	g.callCount[name]++
-	rec := &callRecord{callee: name, n: g.callCount[name], pre: pre, args: argVals}
+	rec := &callRecord{callee: name, n: g.callOrdinal(in, name), pre: pre, args: argVals}
 	g.calls = append(g.calls, rec)
 	a, pos := g.anchor(in.Pos())
 	calleeInv := g.eng.participates(callee) && g.fn.Pkg != nil && callee.Pkg != nil && g.fn.Pkg.Pkg == callee.Pkg.Pkg
@@ -1021,12 +1022,17 @@ func (g *Gen) bindCallBindings(env *Env) {
 				rec = r
 			}
 		}
-		if rec == nil {
-			continue
-		}
 		idx := 0
 		if b.Result != "" {
 			fmt.Sscanf(b.Result, "%d", &idx)
+		}
+		if rec == nil {
+			// the call has not happened on any path to this return: the name denotes an arbitrary value
+			// (clauses mention it under reached(<label>), which is false here)
+			if t := g.bindResultType(b, idx); t != nil {
+				env.vars[b.Name] = EnvVal{term: g.fresh("unbound_"+b.Name, sortOf(t)), ty: VType{Go: t}}
+			}
+			continue
 		}
 		if idx < len(rec.results) {
 			env.vars[b.Name] = EnvVal{term: rec.results[idx], ty: VType{Go: rec.resTypes[idx]}}
@@ -1211,4 +1217,90 @@ func (e *Engine) isForwarder(fn *ssa.Function) bool {
 	}
 	_, _, ok := e.forwarder(fn, dummy)
 	return ok
+}
+
+// bindResultType: the static type of result idx of the callee a bind refers to (found among the calls in the body).
+func (g *Gen) bindResultType(b BindDef, idx int) types.Type {
+	for _, blk := range g.fn.Blocks {
+		for _, in := range blk.Instrs {
+			ci, ok := in.(ssa.CallInstruction)
+			if !ok {
+				continue
+			}
+			c := ci.Common()
+			name := ""
+			if c.IsInvoke() {
+				name = c.Method.Name()
+			} else if sc := c.StaticCallee(); sc != nil {
+				name = sc.Name()
+			}
+			if name == b.Callee || strings.HasSuffix(b.Callee, "."+name) {
+				res := c.Signature().Results()
+				if idx < res.Len() {
+					return res.At(idx).Type()
+				}
+			}
+		}
+	}
+	return nil
+}
+
+// callOrdinal: the 1-based rank, in source order, of this call among the calls in the function body that
+// may reach the same callee (labels such as findObject#2 therefore follow the program text, not the order
+// in which the generator visits blocks).
+func (g *Gen) callOrdinal(in ssa.Instruction, name string) int {
+	if g.callOrd == nil {
+		g.callOrd = map[string]map[ssa.Instruction]int{}
+	}
+	m, ok := g.callOrd[name]
+	if !ok {
+		m = map[ssa.Instruction]int{}
+		short := name
+		if i := strings.LastIndex(short, "."); i >= 0 {
+			short = short[i+1:]
+		}
+		type site struct {
+			in  ssa.Instruction
+			pos token.Pos
+			idx int
+		}
+		var sites []site
+		k := 0
+		for _, b := range g.fn.Blocks {
+			for _, x := range b.Instrs {
+				k++
+				ci, ok := x.(ssa.CallInstruction)
+				if !ok {
+					continue
+				}
+				c := ci.Common()
+				cn := ""
+				if c.IsInvoke() {
+					cn = c.Method.Name()
+				} else if sc := c.StaticCallee(); sc != nil {
+					cn = sc.Name()
+					if fw, _, ok := g.eng.forwarder(sc, c.Args); ok && g.eng.isForwarder(sc) {
+						cn = fw.Name()
+					}
+				}
+				if cn == short {
+					sites = append(sites, site{x, x.Pos(), k})
+				}
+			}
+		}
+		sort.Slice(sites, func(i, j int) bool {
+			if sites[i].pos != sites[j].pos {
+				return sites[i].pos < sites[j].pos
+			}
+			return sites[i].idx < sites[j].idx
+		})
+		for i, st := range sites {
+			m[st.in] = i + 1
+		}
+		g.callOrd[name] = m
+	}
+	if n, ok := m[in]; ok {
+		return n
+	}
+	return g.callCount[name]
 }
